@@ -638,14 +638,23 @@ class JsNorm:
             return self._block(s[1], paths)
         if k == 'decl':
             _k, _kw, target, init, _l = s
-            if not isinstance(target, str):
+            arr = isinstance(target, tuple) and target[:1] == ('apattern',) and all(isinstance(n_, str) for n_ in target[1])
+            if not isinstance(target, str) and not arr:
                 raise AnalysisError(f'js norm: destructuring in {self.name}')
             out = []
             for p in paths:
                 for conds, v in split_cases(self.term(init, p.env) if init is not None else const(None)):
                     q = p.fork() if conds else p
                     q.conds += conds
-                    q.env[target] = relookup(v)
+                    v = relookup(v)
+                    if arr:
+                        # const [a, b] = <array of known length>
+                        if not (isinstance(v, tuple) and v[:1] == ('seq',) and len(v[1]) == len(target[1])):
+                            raise AnalysisError(f'js norm: destructuring of a value that is not an array literal of {len(target[1])} in {self.name}')
+                        for n_, part in zip(target[1], v[1]):
+                            q.env[n_] = part
+                    else:
+                        q.env[target] = v
                     out.append(q)
             return out
         if k == 'expr':
@@ -725,11 +734,12 @@ class JsNorm:
                 d[canon_key(target[2])] = v
                 p.env[target[1][1]] = ('dict', d)
                 return
-        if target[0] == 'index' and target[1][0] == 'name' and target[2][0] == 'str':
+        if target[0] == 'index' and target[1][0] == 'name':
             base = p.env.get(target[1][1])
-            if isinstance(base, tuple) and base[0] == 'dict':
+            key = self.term(target[2], p.env)
+            if isinstance(base, tuple) and base[0] == 'dict' and isinstance(key, tuple) and key[:1] == ('const',) and isinstance(key[1], str):
                 d = dict(base[1])
-                d[canon_key(target[2][1])] = v
+                d[canon_key(key[1])] = v
                 p.env[target[1][1]] = ('dict', d)
                 return
         raise AnalysisError(f'js norm: unsupported store in {self.name}')
@@ -759,6 +769,9 @@ class JsNorm:
                 d[canon_key(key)] = self.term(v, env)
             return ('dict', d)
         if k == 'arr':
+            if len(e[1]) == 1 and e[1][0][0] == 'spread':
+                # [...X]: the elements of X as an array; as a collection of values it is X
+                return self.term(e[1][0][1], env)
             return ('seq', tuple(self.term(x, env) for x in e[1]))
         if k == 'un':
             if e[1] == '!':
@@ -839,7 +852,8 @@ class JsNorm:
                         xform = {'toLowerCase': 'lower', 'toUpperCase': 'upper', 'trim': 'strip'}.get(x[1][2], x[1][2])
                     if xform is not None and ps[0] not in repr(body[1][1]):
                         other = self.term(body[1][1], env)
-                        mine = ('map', 'set', xform, recv)
+                        # the identity image of a set is the set
+                        mine = recv if xform == 'id' and isinstance(recv, tuple) and recv[:1] in (('set',), ('frozenset',)) else ('map', 'set', xform, recv)
                         a, b2 = sorted([other, mine], key=repr)
                         return ('intersects', a, b2)
             if meth == 'map' and len(args) == 1 and args[0][0] == 'arrow':
